@@ -212,6 +212,23 @@ fn msg_case(ctx: &mut Ctx, m: &AMsg, label: &str) {
     }
 }
 
+/// a writer that accepts at most `per_call` bytes per write call and at most `total` bytes overall
+struct ShortWriter {
+    buf: Vec<u8>,
+    per_call: usize,
+    total: usize,
+}
+impl std::io::Write for ShortWriter {
+    fn write(&mut self, b: &[u8]) -> std::io::Result<usize> {
+        let n = b.len().min(self.per_call).min(self.total - self.buf.len().min(self.total));
+        self.buf.extend_from_slice(&b[..n]);
+        Ok(n)
+    }
+    fn flush(&mut self) -> std::io::Result<()> {
+        Ok(())
+    }
+}
+
 pub fn run(ctx: &mut Ctx) {
     let thorough = ctx.tier == Tier::Thorough;
     for k in ["ccs", "HelloRequest", "Finished", "ClientKeyExchange", "ServerHello", "ServerHelloV13Draft18", "ClientHello"] {
@@ -444,6 +461,35 @@ pub fn run(ctx: &mut Ctx) {
             ctx.count("entry.calls");
             if !matches!(&res, Ok(b) if b.len() == want.len() + 2 && b[..2] == [0xA5, 0x5A] && b[2..] == want[..]) {
                 ctx.violation("c09:entry-point-differs:gen_tls_plaintext".into(), json!({"result": format!("{:.300?}", res.map(|b| hex_short(&b))), "reference_hex": hex_short(&want), "writer_prefix": "a55a"}));
+            }
+            // writers that take fewer bytes than offered (a socket-like writer accepting at most N bytes per call, a
+            // fixed buffer that is too small): the serializer may fail, but whenever it reports success the writer holds
+            // exactly the record (no length field may be emitted for bytes that were dropped)
+            if case.idx % 4 == 0 {
+                for per_call in [1usize, 2, 3, 5, 16, 100] {
+                    let res = gen_simple(gen_tls_plaintext(&rec), ShortWriter { buf: Vec::new(), per_call, total: usize::MAX });
+                    ctx.eval();
+                    ctx.count("entry.short-writer");
+                    if let Ok(w) = &res {
+                        if w.buf != want {
+                            ctx.violation("c09:short-writer:success-reported-but-bytes-differ".into(), json!({"writer_accepts_per_call": per_call, "written_len": w.buf.len(), "written_hex": hex_short(&w.buf), "reference_len": want.len(), "reference_hex": hex_short(&want)}));
+                        }
+                    }
+                }
+                for room in [0usize, 1, 4, 5, 6, want.len().saturating_sub(1), want.len() / 2, want.len(), want.len() + 3] {
+                    let res = gen_simple(gen_tls_plaintext(&rec), ShortWriter { buf: Vec::new(), per_call: usize::MAX, total: room });
+                    ctx.eval();
+                    ctx.count("entry.short-writer");
+                    match &res {
+                        Ok(w) if w.buf == want => {}
+                        Ok(w) => ctx.violation("c09:short-writer:success-reported-but-bytes-differ".into(), json!({"writer_room": room, "written_len": w.buf.len(), "written_hex": hex_short(&w.buf), "reference_len": want.len(), "reference_hex": hex_short(&want)})),
+                        Err(_) => {
+                            if room >= want.len() {
+                                ctx.violation("c09:short-writer:failed-although-the-writer-had-room".into(), json!({"writer_room": room, "reference_len": want.len()}));
+                            }
+                        }
+                    }
+                }
             }
             // a writer that already holds 64 KiB .. 1 MiB (records are appended to one output stream): the bytes a record
             // serializes to do not depend on where in the stream it is written
